@@ -33,7 +33,7 @@ ANCHORS = [
 GROUP1 = ("de", "pso", "nm", "bayes")
 GROUP2 = ("powell", "bfgs", "lbfgs")
 BOUNDED = ("de", "pso", "bayes")
-IMPORTS = "From SV Require Import C19.B_Common C19.B_DE C19.B_PSO C19.B_NM C19.B_Bayes C19.B_Flow."
+IMPORTS = "From SV Require Import C19.B_Common C19.B_DE C19.B_PSO C19.B_NM C19.B_Bayes C19.B_Flow C19.B_Spec."
 
 
 # ------------------------------------------------------------------------------------------------ objectives
@@ -175,13 +175,13 @@ def gen_case(rng, solver, big=False):
                     max_iter=rng.choice([0, 1, 2, 3] + list(range(3, mi_hi + 1))),
                     strategy=rng.choice(["rand/1", "best/1", "rand/2", "best/2", "Rand/1"]),
                     mutation=rng.choice([0.5, 0.8, 1.2]), crossover=rng.choice([0.1, 0.7, 1.0]),
-                    tol=rng.choice([1e-8, 1e-8, 0.05, 1.0, 20.0]),
+                    tol=rng.choice([1e-8, 1e-8, 1e-8, 1e-8, 0.05, 0.3, 1.0, 20.0]),
                     init=(None if rng.random() < 0.6 else gen_points(rng, d, rng.choice([1, 2, 4, 9]))))
         if spec["strategy"].endswith("/2") and spec["population_size"] < 6:
             spec["population_size"] = rng.choice([6, 7, 8])     # smaller: IndexError in the fallback (reported finding)
         spec["cb"], spec["interval"] = gen_cb(rng, spec["max_iter"])
     elif solver == "pso":
-        spec.update(bounds=gen_bounds(rng, d), n_particles=rng.choice([0, 1, 2, 3, 3, 5, 5, 8]),
+        spec.update(bounds=gen_bounds(rng, d), n_particles=rng.choice([0] + [1, 2, 3, 3, 4, 5, 5, 8] * 4),
                     max_iter=rng.choice([0, 1, 2, 3] + list(range(3, mi_hi + 4))),
                     inertia=rng.choice([0.4, 0.7, 1.0]), inertia_decay=rng.choice([None, None, 0.3]),
                     cognitive=rng.choice([0.5, 1.5, 2.5]), social=rng.choice([0.5, 1.5, 2.5]),
@@ -194,8 +194,8 @@ def gen_case(rng, solver, big=False):
                     initial_step=rng.choice([0.05, 0.5, 1.0, 1.0, 2.0]))
         spec["cb"], spec["interval"] = gen_cb(rng, min(spec["max_iter"], 12))
     elif solver == "bayes":
-        spec.update(bounds=[[b[0], b[1]] for b in gen_bounds(rng, d)], n_initial=rng.choice([0, 1, 2, 3, 3, 5]),
-                    max_iter=rng.choice([0, 1, 2, 3, 4, 5, 6, 7, 8, 9, 10] + ([14, 18] if big else [])),
+        spec.update(bounds=[[b[0], b[1]] for b in gen_bounds(rng, d)], n_initial=rng.choice([0] + [1, 2, 3, 3, 5] * 4),
+                    max_iter=rng.choice([0, 1, 2, 3, 5, 6, 7, 8, 9, 10, 12, 12, 15] + ([20, 25] if big else [])),
                     acquisition=rng.choice(["ei", "ucb"]), kappa=rng.choice([0.5, 2.0]), acq_restarts=rng.choice([1, 2, 3]))
         spec["cb"], spec["interval"] = gen_cb(rng, spec["max_iter"])
     elif solver == "powell":
@@ -204,8 +204,8 @@ def gen_case(rng, solver, big=False):
                     max_iter=rng.choice([0, 1, 1, 2, 2, 3, 4, 6 if big else 3]), tol=rng.choice([1e-6, 1e-6, 0.3, 1.0]))
         spec["cb"], spec["interval"] = gen_cb(rng, spec["max_iter"])
     else:  # bfgs / lbfgs: gradient of a smooth bowl (need not be the gradient of the objective)
-        spec.update(x0=gen_points(rng, d, 1)[0], max_iter=rng.choice([0, 1, 2, 3, 4, 5, 6, 8, 12]),
-                    tol=rng.choice([1e-6, 1e-6, 0.5, 2.0, 8.0]),
+        spec.update(x0=gen_points(rng, d, 1)[0], max_iter=rng.choice([0, 1, 2, 3, 4, 5, 6, 8, 8, 12, 12]),
+                    tol=rng.choice([1e-6, 1e-6, 1e-6, 1e-6, 0.5, 2.0, 8.0]),
                     grad={"c": [rng.choice([0.0, 0.5, -1.25, 2.0]) for _ in range(3)], "s": rng.choice([0.5, 1.0, 3.0]),
                           "kind": rng.choice(["bowl", "bowl", "const", "sin"])},
                     m=rng.choice([1, 2, 10]))
@@ -506,6 +506,20 @@ def coq_term(spec, o, early_best=True):
     return f"run_matches ({run}) {clist(ids_of(o), cnat)} {cz(obj)} {cnat(iters)} {cnat(evals)} {status}"
 
 
+def spec_term(spec, o):
+    """Boolean Coq term: the Coq specification checker (sound by spec1_check_sound / spec2_check_sound) accepts the
+    implementation's own output - independent of the bookkeeping machines."""
+    if o["status"] != "ok":
+        return None
+    sol, obj, iters, evals, status = o["res"]
+    if not isinstance(obj, int):
+        return "false"
+    vals = clist([v for _, v in o["log"]], cz)
+    if spec["solver"] in GROUP1:
+        return f"spec1_check {cbool(o['minimize'])} {vals} {clist(ids_of(o), cnat)} {cz(obj)} {cnat(evals)}"
+    return f"spec2_check {vals} {clist(ids_of(o), cnat)} {cz(obj)}"
+
+
 # ------------------------------------------------------------------------------------------------ one case
 def nontrivial(spec, o):
     """A run is non-trivial when the best-so-far changed after the start phase AND a later evaluation was worse
@@ -538,7 +552,8 @@ def work(spec):
         term_m = coq_term({**spec, "minimize": not spec["minimize"]}, om) if om is not None else None
     except Exception as e:  # noqa: BLE001  (a derivation problem is reported, not swallowed)
         term, term_m = f"false (* term construction failed: {type(e).__name__} *)", None
-    return {"spec": spec, "bad": bad, "term": term, "term_m": term_m, "res": o.get("res"), "status": o["status"],
+    sterms = [t for t in (spec_term(spec, o), spec_term(spec, om) if om is not None else None) if t]
+    return {"spec": spec, "bad": bad, "term": term, "term_m": term_m, "sterms": sterms, "res": o.get("res"), "status": o["status"],
             "exc": o.get("exc"), "nlog": len(o["log"]), "nontrivial": nontrivial(spec, o), "ncb": len(o["cb_calls"]),
             "values": [v for _, v in o["log"]][:40]}
 
@@ -564,12 +579,13 @@ def _corpus():
     d = VERIF / "corpus" / "C19"
     if d.exists():
         for f in sorted(d.glob("b_*.json")):
-            out.append((f.name, json.loads(f.read_text())["spec"]))
+            o = json.loads(f.read_text())
+            out.append((f.name, o["spec"], o.get("finding")))
     return out
 
 
-QUICK = {"de": 70, "pso": 70, "nm": 110, "bayes": 36, "powell": 40, "bfgs": 40, "lbfgs": 40}
-THOROUGH = {"de": 1500, "pso": 1500, "nm": 2500, "bayes": 400, "powell": 500, "bfgs": 700, "lbfgs": 700}
+QUICK = {"de": 220, "pso": 220, "nm": 320, "bayes": 90, "powell": 70, "bfgs": 100, "lbfgs": 100}
+THOROUGH = {"de": 4500, "pso": 4500, "nm": 7500, "bayes": 1200, "powell": 1200, "bfgs": 2000, "lbfgs": 2000}
 
 
 def run_part(ctx: Ctx):
@@ -581,7 +597,24 @@ def run_part(ctx: Ctx):
         "C19-B input rejections (outside valid_input, not judged): bayesian_opt(n_initial=0) and particle_swarm(n_particles=0) raise ValueError from min() of an empty range; nelder_mead with len(x0)=0 not modelled",
     ]
     big = ctx.tier == "thorough"
-    cases = [(name, s) for name, s in _corpus()]
+    cases = []
+    open_ids = {f.get("id") for f in ctx.open_findings()}
+    for name, spec, finding in _corpus():
+        if finding:
+            # witness of a reported defect (crash): while it still reproduces it is a KNOWN-FINDING if an open entry
+            # with this id exists in known_findings.json, otherwise it is only counted (decision pending with the
+            # coordinator); once it no longer reproduces it is an ordinary corpus case
+            o = execute(spec)
+            if o["status"] == "exc":
+                ctx.evaluations += 1
+                what = f"{name}: {spec['solver']} raises {o['exc'][0]}: {o['exc'][1]}"
+                if finding in open_ids:
+                    ctx.known_hit(finding, what)
+                else:
+                    ctx.count("b_reported_defect_still_reproduces", finding)
+                    ctx.notes.append(f"C19-B reported defect (no known_findings entry yet, not judged): {what}")
+                continue
+        cases.append((name, spec))
     for solver in GROUP1 + GROUP2:
         n = ctx.budget(QUICK[solver], THOROUGH[solver])
         cases += [(None, gen_case(ctx.rng, solver, big)) for _ in range(n)]
@@ -597,6 +630,7 @@ def run_part(ctx: Ctx):
         ctx.count("b_minimize", spec["minimize"])
         ctx.count("b_obj_kind", spec["obj"]["kind"])
         ctx.count("b_cb", (spec.get("cb") or {}).get("kind", "none"))
+        ctx.count(f"b_{solver}_nontrivial", r["nontrivial"])
         if r["nontrivial"]:
             ctx.nontriv(("b", json.dumps(spec, sort_keys=True)))
         if solver == "nm" and len(ctx.samples) < 2 and r["nontrivial"]:
@@ -617,6 +651,17 @@ def run_part(ctx: Ctx):
 
     failing = ctx.coq_check("b_corr", IMPORTS, "bool", "fun b : bool => b", terms, shard=120)
     disagree = [metas[i] for i in failing]
+    # the Coq specification (B_Spec.v) judges the implementation's outputs, independently of the machines
+    sterms, smetas = [], []
+    for (name, spec), r in zip(cases, results):
+        for t in r["sterms"]:
+            sterms.append(t)
+            smetas.append((spec, r))
+    sfail = ctx.coq_check("b_spec", IMPORTS, "bool", "fun b : bool => b", sterms, shard=300)
+    for i in sfail[:3]:
+        spec, r = smetas[i]
+        if not r["bad"]:
+            ctx.violation(f"{spec['solver']}: Coq spec_check rejects the implementation's result {r['res']}", {"part": "b", "spec": spec})
     if (disagree or ctx.broken) and not ctx.violations:
         _search(ctx, disagree)
 
